@@ -147,7 +147,20 @@ def disc_value(draw, n):
 @st.composite
 def perm_value(draw, n):
     k = draw(st.sampled_from(["member", "member_nd", "member_float", "member_tuple", "keys", "ties", "near_ties",
-                              "ints_oob", "with_inf", "all_equal"]))
+                              "ints_oob", "with_inf", "all_equal", "near_member", "dup_in_range"]))
+    if k == "near_member":
+        # a permutation up to round-off: some entries one ulp (or 1e-9) away from their integer
+        p = draw(st.permutations(list(range(n))))
+        out = []
+        for e in p:
+            how = draw(st.sampled_from(["exact", "below", "above", "eps"]))
+            out.append(float(e) if how == "exact" else math.nextafter(float(e), -math.inf) if how == "below"
+                       else math.nextafter(float(e), math.inf) if how == "above" else e - 1e-9)
+        return out, True
+    if k == "dup_in_range":
+        # integer keys inside 0..n-1 with repeats (some of them with the checksum of a permutation)
+        v = draw(st.lists(st.integers(0, n - 1), min_size=n, max_size=n))
+        return ([float(e) for e in v] if draw(st.booleans()) else v), True
     if k.startswith("member"):
         p = draw(st.permutations(list(range(n))))
         if k == "member":
